@@ -92,7 +92,7 @@ theorem scpd_wf_distinct (sp : ScpdSpec) (h : ScpdSpec.wf fo tb sp = true) : sp.
       have : (l.map fun a => a.name.getD nameless) = l.map fun a => a.name.getD [] := by
         apply List.map_congr_left
         intro a ha
-        have := (hall a ha).1
+        have := (hall a ha).1.1
         cases hn : a.name with
         | none => rw [hn] at this; cases this
         | some n => rfl
